@@ -836,3 +836,128 @@ def s_initializer_names(_ctx):
 
 SCENARIOS.append(Scenario("C13.export.initializer_names", s_initializer_names,
                           [(REL, "_Exporter._translate_graph_body"), (REL, "_Exporter._translate_node"), (REL, "_Exporter._translate_onnx_var")], kind="evaluation"))
+
+
+def s_loop_protocol(_ctx):
+    """_Exporter._translate_loop — the loop-carried protocol of an ONNX Loop in the emitted text (body text abstract):
+      before the loop   state variables := the node's initial values, condition variable := the initial condition (when given);
+      inside the body   the variable that holds the INCOMING condition / state is not the one the body assigns for the next condition /
+                        state (a body may read cond_in after computing cond_out) — except the documented FOR case where the condition is unused;
+      end of the body   condition variable := next condition (when the condition is live), then state variables := next state;
+      after the loop    node outputs := state variables.
+    Loop kinds: trip count only / condition only / both, condition live or not."""
+    from onnx import helper, TensorProto
+    from contracts.c17_opsets import Agg
+    from pyvc.core import Ctx
+    exp = _exp()
+    agg = Agg()
+    cl = ("C13: the emitted source 'computes the same outputs as the original for every input' — ONNX Loop: body inputs (iteration, condition, state) "
+          "are the values at the START of the iteration; body outputs become the next condition and state")
+    n = 0
+    for has_trip in (False, True):
+        for has_cond in (False, True):
+            for cond_live in (False, True):
+                if not has_trip and not (has_cond or cond_live):
+                    continue   # no stop condition: refused by the exporter
+                n += 1
+                case = f"trip count {'given' if has_trip else 'absent'}, condition input {'given' if has_cond else 'absent'}, condition {'computed in the body' if cond_live else 'passed through'}"
+                ctx = Ctx([], {"solver_s": 0.0, "queries": 0})
+                I = Interp(ctx)
+                ex = exp._Exporter(rename=False, use_operators=False, inline_const=False, skip_initializers=False)
+                ex._name_remappings.append({})
+                body_nodes = [helper.make_node("Add", ["acc_in", "acc_in"], ["acc_out"])]
+                body_nodes += [helper.make_node("Not", ["cond_in"], ["cond_out"])] if cond_live else [helper.make_node("Identity", ["cond_in"], ["cond_out"])]
+                body = helper.make_graph(body_nodes, "body", [helper.make_tensor_value_info("i", TensorProto.INT64, []), helper.make_tensor_value_info("cond_in", TensorProto.BOOL, []),
+                                                              helper.make_tensor_value_info("acc_in", TensorProto.FLOAT, [2])],
+                                         [helper.make_tensor_value_info("cond_out", TensorProto.BOOL, []), helper.make_tensor_value_info("acc_out", TensorProto.FLOAT, [2])])
+                node = helper.make_node("Loop", ["trip" if has_trip else "", "c0" if has_cond else "", "init"], ["final"], body=body)
+                seen = {}
+
+                def m_body(interp, slf, g, opsets, indent=0, seen=seen):
+                    # the names the body text will read / assign, at the moment the body is translated
+                    for nm in ("cond_in", "cond_out", "acc_in", "acc_out"):
+                        seen[nm] = interp.call(interp.getattr(slf, "_translate_onnx_var"), [nm])
+                    return "    " * indent + "<body>"
+                I.models[exp._Exporter._translate_graph_body] = m_body
+                try:
+                    text = I.run_closure(I.closure_of(exp._Exporter._translate_loop), [ex, node, {"": 18}], {"indent": 1})
+                except Exception as e:  # noqa: BLE001
+                    agg.ob("C13.export.loop.protocol.translates_every_loop_with_a_stop_condition", False, f"{case}: {type(e).__name__}: {e}", cl, case=case)
+                    continue
+                lines = text.splitlines()
+                bi = [i for i, ln in enumerate(lines) if ln.strip() == "<body>"]
+                ok_body = len(bi) == 1
+                agg.ob("C13.export.loop.protocol.body_translated_once", ok_body, f"{case}: {lines}", cl, case=case)
+                if not ok_body:
+                    continue
+                bi = bi[0]
+                hdr = [i for i, ln in enumerate(lines[:bi]) if ln.strip().startswith(("for ", "while "))]
+                before = [ln.strip() for ln in lines[:hdr[0]]] if hdr else []
+                in_body_after = [ln.strip() for ln in lines[bi + 1:] if ln.startswith("        ")]
+                after_loop = [ln.strip() for ln in lines[bi + 1:] if not ln.startswith("        ")]
+                live = has_cond or cond_live   # the condition decides the iteration count
+                agg.ob("C13.export.loop.protocol.state_initialised_before_the_loop", f"{seen['acc_in']} = init" in before and (not has_cond or f"{seen['cond_in']} = c0" in before),
+                       f"{case}: statements before the loop: {before}", cl, case=case)
+                agg.ob("C13.export.loop.protocol.incoming_state_is_not_overwritten_inside_the_body", seen["acc_in"] != seen["acc_out"],
+                       f"{case}: the body reads acc_in as {seen['acc_in']!r} and assigns acc_out as {seen['acc_out']!r}", cl, case=case)
+                if live:
+                    agg.ob("C13.export.loop.protocol.incoming_condition_is_not_overwritten_inside_the_body", seen["cond_in"] != seen["cond_out"],
+                           f"{case}: the body reads cond_in as {seen['cond_in']!r} and assigns cond_out as {seen['cond_out']!r}: a later read of the incoming condition "
+                           "(Where(cond_in, ...)) would see the next one", cl, case=case)
+                    want = f"{seen['cond_in']} = {seen['cond_out']}"
+                    agg.ob("C13.export.loop.protocol.condition_updated_at_the_end_of_the_body", want in in_body_after,
+                           f"{case}: statements after the body text: {in_body_after}", cl, case=case)
+                agg.ob("C13.export.loop.protocol.state_updated_at_the_end_of_the_body", f"{seen['acc_in']} = {seen['acc_out']}" in in_body_after,
+                       f"{case}: statements after the body text: {in_body_after}", cl, case=case)
+                agg.ob("C13.export.loop.protocol.outputs_assigned_after_the_loop", f"final = {seen['acc_in']}" in after_loop, f"{case}: statements after the loop: {after_loop}", cl, case=case)
+    return {"obligations": agg.obs, "paths": n, "covered": [f"loop_kinds={n}"], "notes": [], "functions": []}
+
+
+SCENARIOS.append(Scenario("C13.export.loop_protocol", s_loop_protocol, [(REL, "_Exporter._translate_loop"), (REL, "_Exporter._emit_assign"), (REL, "_Exporter._translate_onnx_var")],
+                          kind="evaluation", trusted=["_translate_graph_body emits, in order, one statement per body node that reads the variables _translate_onnx_var gives the node's "
+                                                      "inputs and assigns the ones it gives the node's outputs (its own contracts: operator_text, initializer_names, attribute_text)"]))
+
+
+def s_function_value_names(_ctx):
+    """_Exporter._translate_function (real source, with the real renamer of rename=False): inside one function, an attribute parameter
+    and the values of the body get pairwise different Python names — also when a value is named like the attribute parameter (it is
+    given an alternate name `<attr>_<k>`) while ANOTHER value's cleaned-up name is that alternate."""
+    import onnx
+    from onnx import helper
+    from contracts.c17_opsets import Agg
+    exp = _exp()
+    agg = Agg()
+    cl = "C13: 'names that collide after clean-up, attribute names equal to value names' — two different ONNX values must not share a Python name"
+    n = 0
+    for other in ("alpha.0", "alpha_0", "alpha.1", "beta"):
+        for rename in (False,):
+            n += 1
+            case = f"attribute alpha, a value named alpha, another value named {other!r}"
+            const = helper.make_node("Constant", [], ["alpha"])
+            a = onnx.AttributeProto()
+            a.name, a.ref_attr_name, a.type = "value_float", "alpha", onnx.AttributeProto.FLOAT
+            const.attribute.append(a)
+            f = helper.make_function("local", "Affine", ["X"], ["Y"], [const, helper.make_node("Mul", ["X", "alpha"], [other]), helper.make_node("Add", [other, "alpha"], ["Y"])],
+                                     [helper.make_opsetid("", 17)], attributes=["alpha"])
+            ex = exp._Exporter(rename=rename, use_operators=False, inline_const=False, skip_initializers=False)
+            try:
+                text = ex._translate_function(f)
+            except Exception as e:  # noqa: BLE001
+                agg.ob("C13.export.function.values_and_attribute_parameters_get_distinct_python_names", False, f"{case}: {type(e).__name__}: {e}", cl, case=case)
+                continue
+            ok, detail = False, f"{case}: emitted\n{text}"
+            try:
+                fn = [s for s in ast.parse(text).body if isinstance(s, ast.FunctionDef)][0]
+                targets = [t.id for s in fn.body if isinstance(s, ast.Assign) for t in s.targets if isinstance(t, ast.Name)]
+                params = [x.arg for x in fn.args.args + fn.args.kwonlyargs]
+                ok = len(targets) == 3 and len(set(targets)) == 3 and not (set(targets) & set(params))
+                if not ok:
+                    detail = f"{case}: the three values Constant / Mul / Add are assigned to {targets}, parameters are {params}"
+            except (SyntaxError, IndexError) as e:
+                detail += f" - cannot be parsed ({e})"
+            agg.ob("C13.export.function.values_and_attribute_parameters_get_distinct_python_names", ok, detail, cl, case=case)
+    return {"obligations": agg.obs, "paths": n, "covered": [f"functions={n}"], "notes": [], "functions": []}
+
+
+SCENARIOS.append(Scenario("C13.export.function_value_names", s_function_value_names,
+                          [(REL, "_Exporter._translate_function"), (REL, "_Exporter._handle_attrname_conflict.new_renamer"), (REL, "_names_used_in_function")], kind="evaluation"))
